@@ -832,4 +832,127 @@ theorem update_ctrl_left (cl : List A → List (List A)) (al : List A → Bool) 
     simp only [altbCursor, hc0, bwdLoop_steps, bwdLoop2_steps, hN1, e2, hN2, hD]
   simp only [TextInputCl.update, TextInputCl.toG, keySwitch_ctrl_left, hm]
 
+/-- the environment of the default arm's `range` loop (`o`: the loop variable, once bound) -/
+def mkDef (content0 : List (List A)) (offset : Int) (paste : List A) (s : String) (t : List A) (chars : List (List A)) :
+    List (List A) → Int → Option (List A) → Env A := fun content cursor o =>
+  match o with
+  | none =>
+    [("m.content", .chars content), ("m.cursor", .num cursor), ("m.offset", .num offset), ("m.paste", .str paste),
+     ("p0.type", .name "vaxis.Key"), ("p0.EventType", .name "vaxis.EventPress"), ("p0.Text", .str t), ("p0.String()", .name s),
+     ("p0.mod.ModCtrl", .bool false), ("p0.mod.ModAlt", .bool false), ("p0.mod.ModSuper", .bool false), ("p0", .opaque),
+     ("l8", .chars chars)]
+  | some g =>
+    [("m.content", .chars content), ("m.cursor", .num cursor), ("m.offset", .num offset), ("m.paste", .str paste),
+     ("p0.type", .name "vaxis.Key"), ("p0.EventType", .name "vaxis.EventPress"), ("p0.Text", .str t), ("p0.String()", .name s),
+     ("p0.mod.ModCtrl", .bool false), ("p0.mod.ModAlt", .bool false), ("p0.mod.ModSuper", .bool false), ("p0", .opaque),
+     ("l8", .chars chars), ("l9", .str g)]
+
+theorem insertChars_frame {G : Type} : ∀ (gs : List G) (m m' : TextInput.TI G), TextInput.insertChars m gs = some m' →
+    m'.offset = m.offset ∧ m'.paste = m.paste := by
+  intro gs
+  induction gs with
+  | nil => intro m m' h; simp [TextInput.insertChars] at h; subst h; exact ⟨rfl, rfl⟩
+  | cons g gs ih =>
+    intro m m' h
+    simp only [TextInput.insertChars] at h
+    split at h
+    · have := ih _ _ h
+      exact this
+    · cases h
+
+/-- the case labels of `switch msg.String()` -/
+def allLabels : List String :=
+  ["Ctrl+a", "Home", "Ctrl+e", "End", "Ctrl+f", "Right", "Ctrl+b", "Left", "Alt+f", "Ctrl+Right", "Alt+b", "Ctrl+Left",
+   "Ctrl+d", "Delete", "Ctrl+k", "Ctrl+u", "Ctrl+h", "BackSpace", "Ctrl+w"]
+
+theorem update_default (cl : List A → List (List A)) (hnil : cl [] = []) (al : List A → Bool) (m : TIC A) (s : String)
+    (c a sup : Bool) (t : List A) (hs : s ∉ allLabels) :
+    tiRunUpdate genTi cl al m (.key s c a sup t) = TextInputCl.update cl al m (.key s c a sup t) := by
+  obtain ⟨content, cursor, offset, paste⟩ := m
+  simp only [allLabels, List.mem_cons, List.mem_nil_iff, or_false, not_or] at hs
+  obtain ⟨l1, l2, l3, l4, l5, l6, l7, l8, l9, l10, l11, l12, l13, l14, l15, l16, l17, l18, l19⟩ := hs
+  cases c
+  · cases a
+    · cases sup
+      · by_cases ht : t = []
+        · subst ht
+          ti_arm [l1, l2, l3, l4, l5, l6, l7, l8, l9, l10, l11, l12, l13, l14, l15, l16, l17, l18, l19, hnil]
+        · have he : ¬ (t = []) := ht
+          have hsw : execS (tiCx1 genTi cl al) (B.head tiUpdate.body) (env0 ⟨content, cursor, offset, paste⟩ (.key s false false false t)) =
+              (match TextInput.insertChars (⟨content, cursor, offset, []⟩ : TextInput.TI (List A)) (cl t) with
+               | some m' => .ok (mkDef content offset paste s t (cl t) m'.content m'.cursor (lastO none (cl t)))
+               | none => .err "slices.Insert out of range") := by
+            sw_simp [l1, l2, l3, l4, l5, l6, l7, l8, l9, l10, l11, l12, l13, l14, l15, l16, l17, l18, l19, he]
+            have henv : mkDef content offset paste s t (cl t) content cursor none =
+                [("m.content", .chars content), ("m.cursor", .num cursor), ("m.offset", .num offset), ("m.paste", .str paste),
+                 ("p0.type", .name "vaxis.Key"), ("p0.EventType", .name "vaxis.EventPress"), ("p0.Text", .str t),
+                 ("p0.String()", .name s), ("p0.mod.ModCtrl", .bool false), ("p0.mod.ModAlt", .bool false),
+                 ("p0.mod.ModSuper", .bool false), ("p0", .opaque), ("l8", .chars (cl t))] := rfl
+            rw [← henv]
+            rw [rangeSpec "l9" (mkDef content offset paste s t (cl t)) _ offset ?_ ?_ (cl t) content cursor none]
+            · cases TextInput.insertChars (⟨content, cursor, offset, []⟩ : TextInput.TI (List A)) (cl t) <;> simp
+            · intro cc cur o g; cases o <;> simp [mkDef, setV]
+            · intro cc cur g
+              by_cases hr : TextInput.inRange cc cur = true
+              · have hr' : EdLang.inRange cc cur = true := hr
+                simp [mkDef, getV, setV, hr, hr']
+              · have hr2 : TextInput.inRange cc cur = false := by simpa using hr
+                have hr' : EdLang.inRange cc cur = false := hr2
+                simp [mkDef, getV, setV, hr', hr2]
+          have hm : TextInput.keySwitch al ⟨content, cursor, offset, []⟩ s false false false (cl t) =
+              (TextInput.insertChars (⟨content, cursor, offset, []⟩ : TextInput.TI (List A)) (cl t)).map (·, false) := by
+            by_cases hct : cl t = []
+            · simp [TextInput.keySwitch, l1, l2, l3, l4, l5, l6, l7, l8, l9, l10, l11, l12, l13, l14, l15, l16, l17, l18, l19, hct,
+                TextInput.insertChars]
+            · simp [TextInput.keySwitch, l1, l2, l3, l4, l5, l6, l7, l8, l9, l10, l11, l12, l13, l14, l15, l16, l17, l18, l19, hct]
+          cases hi : TextInput.insertChars (⟨content, cursor, offset, []⟩ : TextInput.TI (List A)) (cl t) with
+          | none =>
+            rw [hi] at hsw hm
+            rw [run_err cl al _ _ _ hsw]
+            simp [TextInputCl.update, TextInputCl.toG, hm]
+          | some m' =>
+            rw [hi] at hsw hm
+            have hoff : m'.offset = offset ∧ m'.paste = [] := insertChars_frame _ _ _ hi
+            rw [run_ok cl al _ _ _ m'.content m'.cursor offset paste "unbound deferred" hsw
+              (by cases lastO none (cl t) <;> simp [mkDef, getV]) (by cases lastO none (cl t) <;> simp [mkDef, getV])
+              (by cases lastO none (cl t) <;> simp [mkDef, getV]) (by cases lastO none (cl t) <;> simp [mkDef, getV])
+              (by cases lastO none (cl t) <;> simp [mkDef, getV])]
+            simp [TextInputCl.update, TextInputCl.toG, hm, TextInputCl.ofG, TextInput.clamp, hoff]
+      · ti_arm [l1, l2, l3, l4, l5, l6, l7, l8, l9, l10, l11, l12, l13, l14, l15, l16, l17, l18, l19]
+    · ti_arm [l1, l2, l3, l4, l5, l6, l7, l8, l9, l10, l11, l12, l13, l14, l15, l16, l17, l18, l19]
+  · ti_arm [l1, l2, l3, l4, l5, l6, l7, l8, l9, l10, l11, l12, l13, l14, l15, l16, l17, l18, l19]
+
+/-- `Update`, every event, every state. -/
+theorem update_body_eq_model (cl : List A → List (List A)) (hnil : cl [] = []) (al : List A → Bool) (m : TIC A) (ev : Ev A) :
+    tiRunUpdate genTi cl al m ev = TextInputCl.update cl al m ev := by
+  cases ev with
+  | pasteEnd => exact update_pasteEnd cl al m
+  | release => exact update_release cl al m
+  | pasteKey t => exact update_pasteKey cl al m t
+  | other => exact update_other cl al m
+  | key s c a sup t =>
+    by_cases hs : s ∈ allLabels
+    · simp only [allLabels, List.mem_cons, List.mem_nil_iff, or_false] at hs
+      rcases hs with rfl | rfl | rfl | rfl | rfl | rfl | rfl | rfl | rfl | rfl | rfl | rfl | rfl | rfl | rfl | rfl | rfl | rfl | rfl
+      · exact update_ctrl_a cl al m c a sup t
+      · exact update_home cl al m c a sup t
+      · exact update_ctrl_e cl al m c a sup t
+      · exact update_end cl al m c a sup t
+      · exact update_ctrl_f cl al m c a sup t
+      · exact update_right cl al m c a sup t
+      · exact update_ctrl_b cl al m c a sup t
+      · exact update_left cl al m c a sup t
+      · exact update_alt_f cl al m c a sup t
+      · exact update_ctrl_right cl al m c a sup t
+      · exact update_alt_b cl al m c a sup t
+      · exact update_ctrl_left cl al m c a sup t
+      · exact update_ctrl_d cl al m c a sup t
+      · exact update_delete cl al m c a sup t
+      · exact update_ctrl_k cl al m c a sup t
+      · exact update_ctrl_u cl al m c a sup t
+      · exact update_ctrl_h cl al m c a sup t
+      · exact update_backspace cl al m c a sup t
+      · exact update_ctrl_w cl al m c a sup t
+    · exact update_default cl hnil al m s c a sup t hs
+
 end VaxisModel.Lemmas.EdLangTIBody
